@@ -193,29 +193,29 @@ Lemma fld_empty own own' t : nonempty (t_val t) = false -> fld own t -> fld own'
 Proof. unfold fld. intros ->. rewrite !andb_false_r. auto. Qed.
 
 Lemma range_owner_spec done bitv t s : wf s -> bitb bitv bitv = true -> fld (bitb done bitv) t ->
-  (bitb done bitv = true -> nonempty (t_val t) = true) ->
   match range_owner csize done bitv t s with
   | (Some (t', done'), s') =>
-      wf s' /\ ext s s' /\ fld true t' /\ fld (bitb done' bitv) t' /\ (bitb done' bitv = true -> nonempty (t_val t') = true)
+      wf s' /\ ext s s' /\ fld true t' /\ fld (bitb done' bitv) t'
+      /\ ((bitb done bitv = true -> nonempty (t_val t) = true) -> bitb done' bitv = true -> nonempty (t_val t') = true)
       /\ t_val t' = t_val t /\ others bitv done done' /\ moved s s' (blk_list (t_blk t')) (blk_list (t_blk t))
   | (None, s') => wf s' /\ ext s s' /\ moved s s' [] [] /\ fails_between s s'
   end.
 Proof.
-  intros W Hb F Ne. unfold range_owner. change (negb (N.land done bitv =? 0)%N) with (bitb done bitv).
+  intros W Hb F. unfold range_owner. change (negb (N.land done bitv =? 0)%N) with (bitb done bitv).
   destruct (bitb done bitv) eqn:EB.
-  - split; [exact W|]. split; [apply ext_refl|]. split; [exact F|]. rewrite EB. split; [exact F|]. split; [exact Ne|].
+  - split; [exact W|]. split; [apply ext_refl|]. split; [exact F|]. rewrite EB. split; [exact F|]. split; [auto|].
     split; [reflexivity|]. split; [apply others_refl|]. intros x. lia.
   - assert (Emp : nonempty (t_val t) = false -> wf s /\ ext s s /\ fld true t /\ fld (bitb done bitv) t /\
-                  (bitb done bitv = true -> nonempty (t_val t) = true) /\ t_val t = t_val t /\ others bitv done done
+                  ((false = true -> nonempty (t_val t) = true) -> bitb done bitv = true -> nonempty (t_val t) = true) /\ t_val t = t_val t /\ others bitv done done
                   /\ moved s s (blk_list (t_blk t)) (blk_list (t_blk t))).
     { intros Hn. split; [exact W|]. split; [apply ext_refl|]. split; [eapply fld_empty; eauto|].
-      rewrite EB. split; [exact F|]. split; [discriminate|]. split; [reflexivity|]. split; [apply others_refl|]. intros x. lia. }
+      rewrite EB. split; [exact F|]. split; [intros _; discriminate|]. split; [reflexivity|]. split; [apply others_refl|]. intros x. lia. }
     pose proof (dup_text_spec t s W F) as D.
     destruct t as [v b]. cbn [t_val t_blk] in *.
     destruct v as [[|c r]|]; try (apply Emp; reflexivity).
     revert D. match goal with |- context [dup_text csize ?tt s] => destruct (dup_text csize tt s) as [[t'|] s'] end; intros D.
     + destruct D as (W' & E' & F' & V' & M'). split; [exact W'|]. split; [exact E'|]. split; [exact F'|].
-      rewrite bitb_lor, Hb, orb_true_r. split; [exact F'|]. split; [intros _; rewrite V'; reflexivity|].
+      rewrite bitb_lor, Hb, orb_true_r. split; [exact F'|]. split; [intros _ _; rewrite V'; reflexivity|].
       split; [exact V'|]. split; [apply others_lor|].
       unfold fld in F. cbn [andb t_blk] in F. destruct b; [discriminate|]. exact M'.
     + exact D.
@@ -437,4 +437,336 @@ Proof.
   apply (pl_host_good _ _ _ _ _ _ _ _ _ H) in G0. apply (pl_path_good _ _ _ _ _ _ _ _ _ H) in G0.
   apply (pl_query_good _ _ _ _ _ _ _ _ _ H) in G0. apply (pl_frag_good _ _ _ _ _ _ _ _ _ H) in G0.
   exact G0.
+Qed.
+
+(* ---------------------------------------------------------------- uriMakeOwnerEngine *)
+Definition eng (m0 : muri) (s0 : mstate) (m : muri) (s : mstate) (done : N) : Prop :=
+  wf s /\ ext s0 s /\ inv false done m /\ acct m0 s0 m s.
+
+Lemma eng_fail m0 s0 m s s' done : eng m0 s0 m s done -> wf s' -> ext s s' -> moved s s' [] [] -> fails_between s s' ->
+  wf s' /\ ext s0 s' /\ inv false done m /\ acct m0 s0 m s' /\ fails_between s0 s'.
+Proof.
+  intros (W & E & I & A) W' E' M Fl. split; [exact W'|]. split; [eapply ext_trans; eauto|]. split; [exact I|].
+  split; [unfold acct, moved in *; pwl|]. eapply fails_right; eauto.
+Qed.
+
+Lemma bitb_self_consts : bitb B_SCHEME B_SCHEME = true /\ bitb B_USER B_USER = true /\ bitb B_HOST B_HOST = true
+  /\ bitb B_PATH B_PATH = true /\ bitb B_QUERY B_QUERY = true /\ bitb B_FRAG B_FRAG = true.
+Proof. repeat split. Qed.
+
+Lemma eng_scheme m0 s0 m s done : eng m0 s0 m s done ->
+  match range_owner csize done B_SCHEME (m_scheme m) s with
+  | (Some (t, done'), s') => eng m0 s0 (set_m_scheme t m) s' done' /\ fld true t
+  | (None, s') => wf s' /\ ext s0 s' /\ inv false done m /\ acct m0 s0 m s' /\ fails_between s0 s'
+  end.
+Proof.
+  intros G. pose proof G as (W & E & I & A).
+  pose proof (range_owner_spec done B_SCHEME (m_scheme m) s W eq_refl (i_scheme _ _ _ _ _ _ _ _ I)) as R.
+  destruct (range_owner csize done B_SCHEME (m_scheme m) s) as [[[t d']|] s'].
+  - destruct R as (W' & E' & F1 & F2 & Ne & V & Ho & M). split; [|exact F1].
+    split; [exact W'|]. split; [eapply ext_trans; eauto|]. split.
+    + apply (inv_set_scheme false done d'); auto. intros _. apply Ne. exact (i_scheme_ne _ _ _ _ _ _ _ _ I eq_refl).
+    + unfold acct, moved in *. intros x. pose proof (bl_scheme t m x). pw x. lia.
+  - destruct R as (W' & E' & M & Fl). eapply eng_fail; eauto.
+Qed.
+Lemma eng_user m0 s0 m s done : eng m0 s0 m s done ->
+  match range_owner csize done B_USER (m_userInfo m) s with
+  | (Some (t, done'), s') => eng m0 s0 (set_m_userInfo t m) s' done' /\ fld true t
+  | (None, s') => wf s' /\ ext s0 s' /\ inv false done m /\ acct m0 s0 m s' /\ fails_between s0 s'
+  end.
+Proof.
+  intros G. pose proof G as (W & E & I & A).
+  pose proof (range_owner_spec done B_USER (m_userInfo m) s W eq_refl (i_user _ _ _ _ _ _ _ _ I)) as R.
+  destruct (range_owner csize done B_USER (m_userInfo m) s) as [[[t d']|] s'].
+  - destruct R as (W' & E' & F1 & F2 & Ne & V & Ho & M). split; [|exact F1].
+    split; [exact W'|]. split; [eapply ext_trans; eauto|]. split.
+    + apply (inv_set_user false done d'); auto.
+    + unfold acct, moved in *. intros x. pose proof (bl_user t m x). pw x. lia.
+  - destruct R as (W' & E' & M & Fl). eapply eng_fail; eauto.
+Qed.
+Lemma eng_query m0 s0 m s done : eng m0 s0 m s done ->
+  match range_owner csize done B_QUERY (m_query m) s with
+  | (Some (t, done'), s') => eng m0 s0 (set_m_query t m) s' done' /\ fld true t
+  | (None, s') => wf s' /\ ext s0 s' /\ inv false done m /\ acct m0 s0 m s' /\ fails_between s0 s'
+  end.
+Proof.
+  intros G. pose proof G as (W & E & I & A).
+  pose proof (range_owner_spec done B_QUERY (m_query m) s W eq_refl (i_query _ _ _ _ _ _ _ _ I)) as R.
+  destruct (range_owner csize done B_QUERY (m_query m) s) as [[[t d']|] s'].
+  - destruct R as (W' & E' & F1 & F2 & Ne & V & Ho & M). split; [|exact F1].
+    split; [exact W'|]. split; [eapply ext_trans; eauto|]. split.
+    + apply (inv_set_query false done d'); auto.
+    + unfold acct, moved in *. intros x. pose proof (bl_query t m x). pw x. lia.
+  - destruct R as (W' & E' & M & Fl). eapply eng_fail; eauto.
+Qed.
+Lemma eng_frag m0 s0 m s done : eng m0 s0 m s done ->
+  match range_owner csize done B_FRAG (m_fragment m) s with
+  | (Some (t, done'), s') => eng m0 s0 (set_m_fragment t m) s' done' /\ fld true t
+  | (None, s') => wf s' /\ ext s0 s' /\ inv false done m /\ acct m0 s0 m s' /\ fails_between s0 s'
+  end.
+Proof.
+  intros G. pose proof G as (W & E & I & A).
+  pose proof (range_owner_spec done B_FRAG (m_fragment m) s W eq_refl (i_frag _ _ _ _ _ _ _ _ I)) as R.
+  destruct (range_owner csize done B_FRAG (m_fragment m) s) as [[[t d']|] s'].
+  - destruct R as (W' & E' & F1 & F2 & Ne & V & Ho & M). split; [|exact F1].
+    split; [exact W'|]. split; [eapply ext_trans; eauto|]. split.
+    + apply (inv_set_frag false done d'); auto.
+    + unfold acct, moved in *. intros x. pose proof (bl_frag t m x). pw x. lia.
+  - destruct R as (W' & E' & M & Fl). eapply eng_fail; eauto.
+Qed.
+
+Definition host_step_of (m : muri) (done : N) (s : mstate) : option (muri * N) * mstate :=
+  if bitb done B_HOST then (Some (m, done), s)
+  else match t_val (m_ipFuture m) with
+       | Some _ =>
+         match range_owner csize done B_HOST (m_ipFuture m) s with
+         | (None, s) => (None, s)
+         | (Some (t, done), s) =>
+           (Some (set_m_hostText {| t_val := t_val t; t_blk := None |} (set_m_ipFuture t m), done), s)
+         end
+       | None =>
+         match t_val (m_hostText m) with
+         | Some _ =>
+           match range_owner csize done B_HOST (m_hostText m) s with
+           | (None, s) => (None, s)
+           | (Some (t, done), s) => (Some (set_m_hostText t m, done), s)
+           end
+         | None => (Some (m, done), s)
+         end
+       end.
+Definition path_step_of (m : muri) (done : N) (s : mstate) : option (muri * N) * mstate :=
+  if bitb done B_PATH then (Some (m, done), s)
+  else match own_segs csize [] (m_segs m) s with
+       | (Some segs, s) => (Some (set_m_segs segs m, N.lor done B_PATH), s)
+       | (None, s) => (None, s)
+       end.
+
+Lemma make_owner_engine_eq m done s :
+  make_owner_engine csize m done s =
+  match range_owner csize done B_SCHEME (m_scheme m) s with
+  | (None, s) => (false, m, done, s)
+  | (Some (t, done), s) =>
+    let m := set_m_scheme t m in
+    match range_owner csize done B_USER (m_userInfo m) s with
+    | (None, s) => (false, m, done, s)
+    | (Some (t, done), s) =>
+      let m := set_m_userInfo t m in
+      match range_owner csize done B_QUERY (m_query m) s with
+      | (None, s) => (false, m, done, s)
+      | (Some (t, done), s) =>
+        let m := set_m_query t m in
+        match range_owner csize done B_FRAG (m_fragment m) s with
+        | (None, s) => (false, m, done, s)
+        | (Some (t, done), s) =>
+          let m := set_m_fragment t m in
+          match host_step_of m done s with
+          | (None, s) => (false, m, done, s)
+          | (Some (m, done), s) =>
+            match path_step_of m done s with
+            | (None, s) => (false, set_m_segs [] m, done, s)
+            | (Some (m, done), s) =>
+              match dup_text csize (m_portText m) s with
+              | (None, s) => (false, m, done, s)
+              | (Some t, s) => (true, set_m_portText t m, done, s)
+              end
+            end
+          end
+        end
+      end
+    end
+  end.
+Proof. reflexivity. Qed.
+
+(* the host is held: whichever of ipFuture / hostText carries the block satisfies the owner rule *)
+Definition host_full (m : muri) : Prop :=
+  match t_val (m_ipFuture m) with Some _ => fld true (m_ipFuture m) | None => fld true (m_hostText m) end.
+
+Lemma host_step_spec m0 s0 m s done : eng m0 s0 m s done ->
+  match host_step_of m done s with
+  | (Some (m', done'), s') => eng m0 s0 m' s' done' /\ host_full m'
+      /\ m_scheme m' = m_scheme m /\ m_userInfo m' = m_userInfo m /\ m_query m' = m_query m /\ m_fragment m' = m_fragment m
+      /\ m_portText m' = m_portText m /\ m_segs m' = m_segs m /\ bitb done' B_PATH = bitb done B_PATH
+  | (None, s') => wf s' /\ ext s0 s' /\ inv false done m /\ acct m0 s0 m s' /\ fails_between s0 s'
+  end.
+Proof.
+  intros G. pose proof G as (W & E & I & A). unfold host_step_of. pose proof (i_host _ _ _ _ _ _ _ _ I) as Ih. cbn [orb] in Ih.
+  destruct (bitb done B_HOST) eqn:EB.
+  - split; [exact G|]. split; [|repeat split]. unfold host_full. destruct (t_val (m_ipFuture m)); tauto.
+  - destruct (t_val (m_ipFuture m)) eqn:EF.
+    + destruct Ih as (Hn & Ff & _).
+      assert (Ff' : fld (bitb done B_HOST) (m_ipFuture m)) by (rewrite EB; exact Ff).
+      pose proof (range_owner_spec done B_HOST (m_ipFuture m) s W eq_refl Ff') as R.
+      destruct (range_owner csize done B_HOST (m_ipFuture m) s) as [[[t' d']|] s'].
+      * destruct R as (W' & E' & F1 & F2 & Ne & V & Ho & M).
+        split; [|split; [|repeat split; apply (Ho B_PATH eq_refl)]].
+        -- split; [exact W'|]. split; [eapply ext_trans; eauto|]. split.
+           ++ apply (inv_set_host_fut false done d'); auto. rewrite V, EF. reflexivity.
+              intros _. apply Ne. rewrite EB. discriminate.
+           ++ unfold acct, moved in *. intros x.
+              pose proof (bl_host {| t_val := t_val t'; t_blk := None |} (set_m_ipFuture t' m) x) as B1. pose proof (bl_fut t' m x) as B2.
+              msimpl. rewrite Hn in B1. cbn [blk_list t_blk] in *. rewrite ?cnt_nil in *. pw x. lia.
+        -- unfold host_full. msimpl. rewrite V, EF. exact F1.
+      * destruct R as (W' & E' & M & Fl). eapply eng_fail; eauto.
+    + destruct Ih as (Hn & Fh). destruct (t_val (m_hostText m)) eqn:EH.
+      * assert (Fh' : fld (bitb done B_HOST) (m_hostText m)) by (rewrite EB; exact Fh).
+        pose proof (range_owner_spec done B_HOST (m_hostText m) s W eq_refl Fh') as R.
+        destruct (range_owner csize done B_HOST (m_hostText m) s) as [[[t' d']|] s'].
+        -- destruct R as (W' & E' & F1 & F2 & Ne & V & Ho & M).
+           split; [|split; [|repeat split; apply (Ho B_PATH eq_refl)]].
+           ++ split; [exact W'|]. split; [eapply ext_trans; eauto|]. split.
+              ** apply (inv_set_host_reg false done d'); auto.
+              ** unfold acct, moved in *. intros x. pose proof (bl_host t' m x). pw x. lia.
+           ++ unfold host_full. msimpl. rewrite EF. exact F1.
+        -- destruct R as (W' & E' & M & Fl). eapply eng_fail; eauto.
+      * split; [exact G|]. split; [|repeat split]. unfold host_full. rewrite EF. eapply fld_empty; [|exact Fh]. rewrite EH. reflexivity.
+Qed.
+
+Lemma path_step_spec m0 s0 m s done : eng m0 s0 m s done -> holds m0 s0 ->
+  match path_step_of m done s with
+  | (Some (m', done'), s') => eng m0 s0 m' s' done' /\ Forall (sfld true) (m_segs m')
+      /\ m_scheme m' = m_scheme m /\ m_userInfo m' = m_userInfo m /\ m_query m' = m_query m /\ m_fragment m' = m_fragment m
+      /\ m_portText m' = m_portText m /\ m_hostText m' = m_hostText m /\ m_ipFuture m' = m_ipFuture m
+  | (None, s') => wf s' /\ ext s0 s' /\ inv false done (set_m_segs [] m) /\ acct m0 s0 (set_m_segs [] m) s' /\ fails_between s0 s'
+  end.
+Proof.
+  intros G Hh. pose proof G as (W & E & I & A). unfold path_step_of. pose proof (i_segs _ _ _ _ _ _ _ _ I) as Is. cbn [orb] in Is.
+  destruct (bitb done B_PATH) eqn:EB.
+  - split; [exact G|]. split; [exact Is|repeat split].
+  - pose proof (acct_holds _ _ _ _ Hh A) as Hm.
+    set (F := fun x => L s x - cnt (seg_blocks (m_segs m)) x).
+    assert (O : over s (seg_blocks [] ++ seg_blocks (m_segs m)) F).
+    { intros x. subst F. cbn [seg_blocks flat_map app]. specialize (Hm x). rewrite muri_blocks_eq in Hm. cn. lia. }
+    pose proof (own_segs_spec (m_segs m) [] s F W (Forall_nil _) Is O) as R.
+    destruct (own_segs csize [] (m_segs m) s) as [[segs|] s'].
+    + destruct R as (W' & E' & Fs & O').
+      split; [|split; [exact Fs|repeat split]].
+      split; [exact W'|]. split; [eapply ext_trans; eauto|]. split.
+      * apply (inv_set_segs false done (N.lor done B_PATH)); auto. apply others_lor. rewrite bitb_lor. cbn [orb]. rewrite orb_true_r. exact Fs.
+      * unfold acct, over in *. intros x. pose proof (bl_segs segs m x). subst F. cbn [seg_blocks flat_map app] in O. pw x. lia.
+    + destruct R as (W' & E' & O' & Fl).
+      split; [exact W'|]. split; [eapply ext_trans; eauto|]. split.
+      * apply (inv_set_segs false done done); auto. apply others_refl.
+      * split; [|eapply fails_right; eauto].
+        unfold acct, over in *. intros x. pose proof (bl_segs [] m x). subst F. cbn [seg_blocks flat_map app] in *. pw x. lia.
+Qed.
+
+Lemma make_owner_engine_spec m done s : wf s -> inv false done m -> holds m s ->
+  match make_owner_engine csize m done s with
+  | (true, m', done', s') => wf s' /\ ext s s' /\ inv true 0 m' /\ acct m s m' s'
+  | (false, m', done', s') => wf s' /\ ext s s' /\ inv false done' m' /\ acct m s m' s' /\ fails_between s s'
+  end.
+Proof.
+  intros W I Hh. rewrite make_owner_engine_eq.
+  assert (G0 : eng m s m s done).
+  { split; [exact W|]. split; [apply ext_refl|]. split; [exact I|]. intros x. lia. }
+  pose proof (eng_scheme _ _ _ _ _ G0) as R1.
+  destruct (range_owner csize done B_SCHEME (m_scheme m) s) as [[[t1 d1]|] s1]; [|exact R1].
+  destruct R1 as (G1 & F1). cbv zeta.
+  pose proof (eng_user _ _ _ _ _ G1) as R2.
+  destruct (range_owner csize d1 B_USER (m_userInfo (set_m_scheme t1 m)) s1) as [[[t2 d2]|] s2]; [|exact R2].
+  destruct R2 as (G2 & F2).
+  pose proof (eng_query _ _ _ _ _ G2) as R3.
+  destruct (range_owner csize d2 B_QUERY _ s2) as [[[t3 d3]|] s3]; [|exact R3].
+  destruct R3 as (G3 & F3).
+  pose proof (eng_frag _ _ _ _ _ G3) as R4.
+  destruct (range_owner csize d3 B_FRAG _ s3) as [[[t4 d4]|] s4]; [|exact R4].
+  destruct R4 as (G4 & F4).
+  pose proof (host_step_spec _ _ _ _ _ G4) as R5.
+  destruct (host_step_of _ d4 s4) as [[[m5 d5]|] s5]; [|exact R5].
+  destruct R5 as (G5 & F5 & e1 & e2 & e3 & e4 & e5 & e6 & e7).
+  pose proof (path_step_spec _ _ _ _ _ G5 Hh) as R6.
+  destruct (path_step_of m5 d5 s5) as [[[m6 d6]|] s6]; [|exact R6].
+  destruct R6 as (G6 & F6 & g1 & g2 & g3 & g4 & g5 & g6 & g7).
+  destruct G6 as (W6 & E6 & I6 & A6).
+  assert (Fp : fld false (m_portText m6)) by (exact (i_port _ _ _ _ _ _ _ _ I6)).
+  pose proof (dup_text_spec (m_portText m6) s6 W6 Fp) as R7.
+  destruct (dup_text csize (m_portText m6) s6) as [[t7|] s7].
+  - destruct R7 as (W7 & E7 & F7 & V7 & M7).
+    split; [exact W7|]. split; [eapply ext_trans; eauto|]. split.
+    + pose proof (i_host _ _ _ _ _ _ _ _ I6) as Ih.
+      split; msimpl; cbn [orb]; auto; try (intros; discriminate).
+      * rewrite g1, e1. exact F1.
+      * rewrite g2, e2. exact F2.
+      * unfold host_full in F5. rewrite g7, g6 in *. destruct (t_val (m_ipFuture m5)).
+        -- destruct Ih as (a & _ & _). split; [exact a|]. split; [exact F5|]. intros; discriminate.
+        -- destruct Ih as (a & _). split; [exact a|exact F5].
+      * rewrite g3, e3. exact F3.
+      * rewrite g4, e4. exact F4.
+    + unfold acct, moved in *. intros x. pose proof (bl_port t7 m6 x) as B.
+      unfold fld in Fp. cbn in Fp. destruct (t_blk (m_portText m6)); [discriminate|]. cbn [blk_list] in *. pw x. lia.
+  - destruct R7 as (W7 & E7 & M7 & Fl). eapply eng_fail; eauto. split; [exact W6|]. split; [exact E6|]. split; assumption.
+Qed.
+
+Ltac dmatch := repeat match goal with
+  | |- context [match ?e with _ => _ end] => destruct e
+  | |- context [if ?e then _ else _] => destruct e
+  end.
+
+Lemma host_step_owner m done s :
+  match host_step_of m done s with (Some (m', _), _) => m_owner m' = m_owner m | (None, _) => True end.
+Proof.
+  unfold host_step_of. destruct (bitb done B_HOST); [reflexivity|].
+  destruct (t_val (m_ipFuture m)).
+  - destruct (range_owner csize done B_HOST (m_ipFuture m) s) as [[[t' d]|] s']; [reflexivity|exact I].
+  - destruct (t_val (m_hostText m)); [|reflexivity].
+    destruct (range_owner csize done B_HOST (m_hostText m) s) as [[[t' d]|] s']; [reflexivity|exact I].
+Qed.
+Lemma path_step_owner m done s :
+  match path_step_of m done s with (Some (m', _), _) => m_owner m' = m_owner m | (None, _) => True end.
+Proof.
+  unfold path_step_of. destruct (bitb done B_PATH); [reflexivity|].
+  destruct (own_segs csize [] (m_segs m) s) as [[segs|] s']; [reflexivity|exact I].
+Qed.
+
+Lemma make_owner_engine_owner m done s : m_owner (snd (fst (fst (make_owner_engine csize m done s)))) = m_owner m.
+Proof.
+  rewrite make_owner_engine_eq.
+  destruct (range_owner csize done B_SCHEME (m_scheme m) s) as [[[t1 d1]|] s1]; [|reflexivity]. cbv zeta.
+  destruct (range_owner csize d1 B_USER _ s1) as [[[t2 d2]|] s2]; [|reflexivity].
+  destruct (range_owner csize d2 B_QUERY _ s2) as [[[t3 d3]|] s3]; [|reflexivity].
+  destruct (range_owner csize d3 B_FRAG _ s3) as [[[t4 d4]|] s4]; [|reflexivity].
+  match goal with |- context [host_step_of ?mm d4 s4] => pose proof (host_step_owner mm d4 s4) as H5; destruct (host_step_of mm d4 s4) as [[[m5 d5]|] s5] end; [|reflexivity].
+  pose proof (path_step_owner m5 d5 s5) as H6. destruct (path_step_of m5 d5 s5) as [[[m6 d6]|] s6].
+  - destruct (dup_text csize (m_portText m6) s6) as [[t7|] s7]; cbn [fst snd]; msimpl; congruence.
+  - cbn [fst snd]. msimpl. exact H5.
+Qed.
+
+Lemma prevent_leakage_owner m done s : m_owner (fst (prevent_leakage m done s)) = m_owner m.
+Proof.
+  rewrite prevent_leakage_stages.
+  assert (H1 : forall b ms, m_owner (fst (pl_scheme b ms)) = m_owner (fst ms)) by (intros [|] [m' s']; reflexivity).
+  assert (H2 : forall b ms, m_owner (fst (pl_user b ms)) = m_owner (fst ms)) by (intros [|] [m' s']; reflexivity).
+  assert (H3 : forall b ms, m_owner (fst (pl_host b ms)) = m_owner (fst ms)).
+  { intros [|] [m' s']; [|reflexivity]. unfold pl_host. destruct (t_val (m_ipFuture m')); [reflexivity|]. destruct (t_val (m_hostText m')); reflexivity. }
+  assert (H4 : forall b ms, m_owner (fst (pl_path b ms)) = m_owner (fst ms)) by (intros [|] [m' s']; reflexivity).
+  assert (H5 : forall b ms, m_owner (fst (pl_query b ms)) = m_owner (fst ms)) by (intros [|] [m' s']; reflexivity).
+  assert (H6 : forall b ms, m_owner (fst (pl_frag b ms)) = m_owner (fst ms)) by (intros [|] [m' s']; reflexivity).
+  rewrite H6, H5, H4, H3, H2, H1. reflexivity.
+Qed.
+
+Lemma inv_set_owner o d m v : inv o d m -> inv o d (set_m_owner v m).
+Proof. intros [c1 c2 c3 c4 c5 c6 c7 c8]. split; msimpl; auto. Qed.
+
+(* uriMakeOwnerMm *)
+Theorem make_owner_m_spec m s : wf s -> owns m s ->
+  match make_owner_m csize m s with
+  | (rc, m', s') => wf s' /\ ext s s' /\ consistent m' /\ acct m s m' s'
+                    /\ ((rc = URI_SUCCESS /\ m_owner m' = true) \/ (rc = URI_ERROR_MALLOC /\ m_owner m' = false /\ fails_between s s'))
+  end.
+Proof.
+  intros W [C Hh]. unfold make_owner_m. unfold consistent in C. destruct (m_owner m) eqn:EO.
+  - split; [exact W|]. split; [apply ext_refl|]. split; [unfold consistent; rewrite EO; exact C|]. split; [intros x; lia|]. left. auto.
+  - pose proof (make_owner_engine_spec m 0 s W C Hh) as R.
+    destruct (make_owner_engine csize m 0 s) as [[[[|] m'] d'] s'] eqn:ER.
+    + destruct R as (W' & E' & I' & A'). split; [exact W'|]. split; [exact E'|].
+      split; [apply (inv_set_owner true 0 m' true); exact I'|]. split; [exact A'|]. left. auto.
+    + pose proof (make_owner_engine_owner m 0 s) as EO1. rewrite ER in EO1. cbn [fst snd] in EO1.
+      destruct R as (W' & E' & I' & A' & Fl).
+      pose proof (prevent_leakage_spec m' d' s' W' I' (acct_holds _ _ _ _ Hh A')) as P. cbv zeta in P.
+      pose proof (prevent_leakage_owner m' d' s') as EO2.
+      destruct (prevent_leakage m' d' s') as [m'' s'']. cbn [fst snd] in P, EO2.
+      destruct P as (W2 & E2 & Q2 & I2 & A2).
+      assert (EO' : m_owner m'' = false) by congruence.
+      split; [exact W2|]. split; [eapply ext_trans; eauto|]. split; [unfold consistent; rewrite EO'; exact I2|].
+      split; [unfold acct in *; pwl|]. right. split; [reflexivity|]. split; [exact EO'|]. eapply fails_left; eauto.
 Qed.
